@@ -155,10 +155,22 @@ def generate(rng, prop, tier):
                                                      "delete_file"]),
                         "pos": rng.randint(0, 20), "line": _gen_line(rng, cls, schemes, set())})
         elif k == "io_fault":
-            ops.append({"op": k, "kind": rng.choice(["open_error", "read_error", "write_error", "write_error"]),
-                        "errno": rng.choice(["ENOENT", "EACCES", "EIO", "ENOSPC"]), "after": rng.choice([0, 1, 7, 20, 45, 100, 300])})
+            fk = rng.choice(["open_error", "read_error", "write_error", "write_error", "write_during_read"])
+            f = {"op": k, "kind": fk, "errno": rng.choice(["ENOENT", "EACCES", "EIO", "ENOSPC"]), "after": rng.choice([0, 1, 7, 20, 45, 100, 300])}
+            if fk == "write_during_read":
+                # a foreign writer replaces the file while this process is in the middle of reading it
+                g = cfg["gran"]
+                f["dt"] = rng.choice([0, g / 2, g, g, 3 * g, 60])
+                f["edit"] = {"op": "external_edit", "kind": rng.choice(["append_rec", "append_rec", "remove_line", "replace_all", "add_comment", "dup_line"]),
+                             "pos": rng.randint(0, 20), "line": _gen_line(rng, cls, schemes, set())}
+            ops.append(f)
             # place the fault inside workload: the next op touches the file
-            ops.append({"op": rng.choice(["load", "save", "load_if_changed", "save"]), "o": o, "realm": realm})
+            if fk == "write_during_read":
+                ops.append({"op": rng.choice(["load", "load_if_changed", "load_if_changed"]), "o": o, "realm": realm})
+                if rng.random() < 0.7:
+                    ops.append({"op": "load_if_changed", "o": o, "realm": realm})
+            else:
+                ops.append({"op": rng.choice(["load", "save", "load_if_changed", "save"]), "o": o, "realm": realm})
     return {"cfg": cfg, "ops": ops}
 
 
@@ -653,6 +665,10 @@ class _W:
         mt = self.fs.mtimes.get(o["path"])
         r = self.call(getattr(ht, k))
         fired = self.fs.reset_fired()
+        if "write_during_read" in fired:
+            # not an error: this load saw the content (and must remember the mtime) the file had when it was opened
+            fired = [f for f in fired if f != "write_during_read"]
+            ctx.probe("foreign_write_during_load")
         got = "ok" if r[0] == "ok" else r[1]
         if k == "load_if_changed":
             changed = model.mtime_read is None or data is None or mt != model.mtime_read
@@ -742,7 +758,7 @@ class _W:
         ht, model = o["ht"], o["model"]
         data = self.fs.get(PATH2)
         r = self.call(ht.load, PATH2)
-        fired = self.fs.reset_fired()
+        fired = [f for f in self.fs.reset_fired() if f != "write_during_read"]
         got = "ok" if r[0] == "ok" else r[1]
         if fired:
             ctx.check(r[0] == "exc" and isinstance(r[2], OSError), "C16", "io-error-swallowed", f"load(path) under {fired} -> {r[:2]}", op="load_from")
@@ -901,6 +917,12 @@ def execute(program, ctx):
                 w.fs.armed = {"kind": "open_error", "errno": e}
             elif op["kind"] == "read_error":
                 w.fs.armed = {"kind": "read_error", "after": op["after"]}
+            elif op["kind"] == "write_during_read":
+                def action(w=w, op=op):
+                    w.fs.tick(op["dt"])
+                    ctx.sim_time += op["dt"]
+                    w.op_external(op["edit"])
+                w.fs.armed = {"kind": "write_during_read", "after": op["after"], "action": action}
             else:
                 w.fs.armed = {"kind": "write_error", "after": op["after"], "errno": errno.ENOSPC if op["errno"] == "ENOSPC" else errno.EIO}
     w.finish()
